@@ -12,11 +12,13 @@ from common import Ctx, MachineryError, pmap, write_json
 # deviation flag of the tree under test: '>=' leaves the delimiter space of \\geq visible
 IMPL_GE_SPACE = True
 ALPHA = {"x", "A", "B", "M", "p", "1", "sp", "^", "_", ">", "<", "=", "nl", "bs", "G", "E", "H", ".", "T", "F"}
-PLAN = {"quick": dict(maxlen=3, sim_len=10, sim_num=1500, ktemplates=7, comps=True),
+PLAN = {"quick": dict(maxlen=3, sim_len=10, sim_num=1500, ktemplates=9, comps=True),
         "thorough": dict(maxlen=4, sim_len=24, sim_num=20000, ktemplates=40, comps=True)}
-KTEMPLATES = [["K"], ["x", "sp", "K"], ["K", "sp", "x"], ["K", "K"], ["K", "x"], ["K", "G"], ["K", "E"], ["K", "1"], ["K", "."], ["^", "K"], ["K", ">", "="],
-              ["x", "K"], ["K", "nl", "K"], ["K", "sp", "K"], ["1", "K", "1"], ["K", "A"], ["K", "_", "x"], ["G", "K"], ["K", "sp", "sp", "x"],
-              ["K", "p"], ["p", "K"], ["K", "T"], ["F", "K"], ["K", "<", "="], ["=", "K", "="], [".", "K", "."], ["K", "B", "x"], ["K", "x", "G"],
+# (["x", "K"], ["=", "K", "="]: a composable character directly before the command - a combining-mark command must leave its
+#  neighbour as it is, not compose with it)
+KTEMPLATES = [["K"], ["x", "sp", "K"], ["K", "sp", "x"], ["K", "K"], ["K", "x"], ["x", "K"], ["=", "K", "="], ["K", "G"], ["K", "E"], ["K", "1"], ["K", "."], ["^", "K"], ["K", ">", "="],
+              ["K", "nl", "K"], ["K", "sp", "K"], ["1", "K", "1"], ["K", "A"], ["K", "_", "x"], ["G", "K"], ["K", "sp", "sp", "x"],
+              ["K", "p"], ["p", "K"], ["K", "T"], ["F", "K"], ["K", "<", "="], [".", "K", "."], ["K", "B", "x"], ["K", "x", "G"],
               ["K", "sp", "1"], ["x", "^", "K", "_", "x"], ["K", "K", "K"], ["K", "1", "sp", "x"], ["bs", "A", "K"], ["K", "bs", "A"], ["K", "bs", "M", "G"],
               ["nl", "K"], ["K", "nl"], ["sp", "K", "sp"], ["K", "M"], ["K", "G", "G"], ["K", ">"],
               ["K", "H"], ["K", "H", "H"], ["H", "K"], ["K", "sp", "H"], ["bs", "M", "H"], ["bs", "B", "H", "K"], ["K", "x", "H"]]
